@@ -1012,7 +1012,13 @@ impl ErasedNode for Node {
         } else if !self.is_necessary() {
             NodeUpdateDelayed::Unnecessary
         } else {
-            match self.value_as_any().is_some() {
+            /* [Changed] only if the value changed in the stabilisation that just finished
+            (stabilisation_num has already been bumped).  A node that is merely handled because
+            an observer or handler was added reports [Necessary], which existing handlers
+            ignore and new handlers treat as their initialisation. */
+            let changed_now = self.value_as_any().is_some()
+                && self.changed_at.get().add1() == self.state().stabilisation_num.get();
+            match changed_now {
                 true => NodeUpdateDelayed::Changed,
                 false => NodeUpdateDelayed::Necessary,
             }
